@@ -284,6 +284,13 @@ def same_modulo_timing(a, b):
         rb = json.loads(b.provenance(b.num_provenances - 1).record)
         ra.pop("resources", None)
         rb.pop("resources", None)
+        # an option NOT given on the command line may reach the API as None or as its documented default (the parser
+        # supplies 1e-8 for -b where the API's own default is None -> 1e-8): the same option value, recorded differently
+        pa, pb = ra.get("parameters"), rb.get("parameters")
+        if isinstance(pa, dict) and isinstance(pb, dict):
+            for k, alts in DATE_DEFAULTS.items():
+                if k in pa and k in pb and pa[k] in alts and pb[k] in alts:
+                    pa[k] = pb[k] = alts[1]
         if ra != rb:
             diff = {k: (ra.get(k), rb.get(k)) for k in set(ra) | set(rb) if ra.get(k) != rb.get(k)}
             return f"provenance record differs: {json.dumps(diff, default=str)[:300]}"
